@@ -31,3 +31,17 @@ package drbg
 //@   modifies drbg.sip.absorbed, drbg.ofb
 //@   ensures [C12:int63_is_masked_block] ret == unbe(seq(drbg.ofb)) % 9223372036854775808 && 0 <= ret
 //@   ensures drbgInv(drbg)
+
+//@ func (*Seed).Hex(seed) (s)
+//@   serves C18
+//@   requires seed != nil
+//@   ensures s == HEX(seq(seed))
+
+//@ func SeedFromHex(encoded) (seed, err)
+//@   serves C18 C10
+//@   ensures [C18:seed_from_hex] (err == nil) == (ISHEX(encoded) && len(encoded) >= 48) && (err == nil) == (seed != nil)
+//@   ensures err == nil ==> seq(seed) == sub(UNHEX(encoded), 0, 24) && fresh(seed)
+
+//@ func NewSeed() (seed, err)
+//@   serves C18
+//@   ensures (err == nil) == (seed != nil) && (err == nil ==> fresh(seed))
